@@ -118,23 +118,17 @@ def writeTok (S : Suite) (cap : Nat) (w : WS) (t : Tok) : Res Unit × WS :=
     if !hs.s.on then (.err (.state .missingKeyMaterial), w)
     else if w.acc.length + S.pubLen + (if hs.sym.hasKey then 16 else 0) > cap then (.err .input, w)
     else
-      match hs.sym.encryptAndMixHash S hs.s.val.pub (cap - w.acc.length) with
-      | (.ok ct, sym', ev) => (.ok (), { hs := { hs with sym := sym' }, acc := w.acc ++ ct, ev := w.ev ++ ev })
-      | (.err e, sym', ev) => (.err e, { w with hs := { hs with sym := sym' }, ev := w.ev ++ ev })
-      | (.panic p, sym', ev) => (.panic p, { w with hs := { hs with sym := sym' }, ev := w.ev ++ ev })
-  | .psk n =>
-    match pskStep S hs n with
-    | (r, hs') => (r, { w with hs := hs' })
-  | t =>
-    match dhStep S hs t with
-    | (r, hs') => (r, { w with hs := hs' })
+      let r := hs.sym.encryptAndMixHash S hs.s.val.pub (cap - w.acc.length)
+      (r.1.toUnit, { hs := { hs with sym := r.2.1 }, acc := w.acc ++ Sym.okBytes r.1, ev := w.ev ++ r.2.2 })
+  | .psk n => ((pskStep S hs n).1, { w with hs := (pskStep S hs n).2 })
+  | t => ((dhStep S hs t).1, { w with hs := (dhStep S hs t).2 })
 
 def writeToks (S : Suite) (cap : Nat) : List Tok → WS → Res Unit × WS
   | [], w => (.ok (), w)
   | t :: ts, w =>
-    match writeTok S cap w t with
-    | (.ok (), w') => writeToks S cap ts w'
-    | (r, w') => (r, w')
+    match (writeTok S cap w t).1 with
+    | .ok () => writeToks S cap ts (writeTok S cap w t).2
+    | r => (r, (writeTok S cap w t).2)
 
 /-- `_write_message(payload, message)` with `message.len() = cap`.
     Returns the outcome, the session, the bytes written so far and the events. -/
@@ -143,38 +137,40 @@ def writeInner (S : Suite) (hs : HS) (payload : Bytes) (cap : Nat) : Res Nat × 
   if !hs.myTurn then (.err (.state .notTurnToWrite), w0)
   else if hs.pos ≥ hs.msgs.length then (.err (.state .handshakeAlreadyFinished), w0)
   else
-    match writeToks S cap (hs.msgs.getD hs.pos []) w0 with
-    | (.err e, w) => (.err e, w)
-    | (.panic p, w) => (.panic p, w)
-    | (.ok (), w) =>
+    let w := (writeToks S cap (hs.msgs.getD hs.pos []) w0).2
+    match (writeToks S cap (hs.msgs.getD hs.pos []) w0).1 with
+    | .err e => (.err e, w)
+    | .panic p => (.panic p, w)
+    | .ok () =>
       if w.acc.length + payload.length + 16 > cap then (.err .input, w)
       else if w.acc.length + payload.length + (if w.hs.sym.hasKey then 16 else 0) > 65535 then
         (.err .input, w)
       else
-        match w.hs.sym.encryptAndMixHash S payload (cap - w.acc.length) with
-        | (.err e, sym', ev) => (.err e, { w with hs := { w.hs with sym := sym' }, ev := w.ev ++ ev })
-        | (.panic p, sym', ev) => (.panic p, { w with hs := { w.hs with sym := sym' }, ev := w.ev ++ ev })
-        | (.ok ct, sym', ev) =>
-          let hs1 := { w.hs with sym := sym' }
+        let r := w.hs.sym.encryptAndMixHash S payload (cap - w.acc.length)
+        let hs1 := { w.hs with sym := r.2.1 }
+        match r.1 with
+        | .err e => (.err e, { w with hs := hs1, ev := w.ev ++ r.2.2 })
+        | .panic p => (.panic p, { w with hs := hs1, ev := w.ev ++ r.2.2 })
+        | .ok ct =>
           let hs2 :=
             if hs1.pos == hs1.msgs.length - 1 then
-              let c := hs1.sym.split S
-              { hs1 with cs1 := c.1, cs2 := c.2 }
+              { hs1 with cs1 := (hs1.sym.split S).1, cs2 := (hs1.sym.split S).2 }
             else hs1
-          (.ok (w.acc.length + ct.length), { hs := hs2, acc := w.acc ++ ct, ev := w.ev ++ ev })
+          (.ok (w.acc.length + ct.length), { hs := hs2, acc := w.acc ++ ct, ev := w.ev ++ r.2.2 })
 
 /-- `write_message`: checkpoint, `_write_message`, advance or restore. -/
 def writeMessage (S : Suite) (hs : HS) (payload : Bytes) (cap : Nat) :
     Res Nat × HS × Bytes × List Event :=
   let cp := hs.sym.checkpoint
   let eWasOn := hs.e.on
-  match writeInner S hs payload cap with
-  | (.ok n, w) => (.ok n, { w.hs with pos := w.hs.pos + 1, myTurn := false }, w.acc, w.ev)
-  | (.err e, w) =>
+  let w := (writeInner S hs payload cap).2
+  match (writeInner S hs payload cap).1 with
+  | .ok n => (.ok n, { w.hs with pos := w.hs.pos + 1, myTurn := false }, w.acc, w.ev)
+  | .err e =>
     let hs1 := { w.hs with sym := w.hs.sym.restore cp }
     let hs2 := if !eWasOn then { hs1 with e := { hs1.e with on := false } } else hs1
     (.err e, hs2, w.acc, w.ev)
-  | (.panic p, w) => (.panic p, w.hs, w.acc, w.ev)
+  | .panic p => (.panic p, w.hs, w.acc, w.ev)
 
 /-- One token of `_read_message`. -/
 def readTok (S : Suite) (r : RS) (t : Tok) : Res Unit × RS :=
@@ -192,29 +188,23 @@ def readTok (S : Suite) (r : RS) (t : Tok) : Res Unit × RS :=
     let len := S.pubLen + (if hs.sym.hasKey then 16 else 0)
     if r.ptr.length < len then (.err .input, r)
     else
-      match hs.sym.decryptAndMixHash S (r.ptr.take len) S.pubLen with
-      | (.ok p, sym', _, ev) =>
-        (.ok (), { hs := { hs with sym := sym', rs := { val := p, on := true } },
-                   ptr := r.ptr.drop len, ev := r.ev ++ ev })
-      | (.err e, sym', buf, ev) =>
-        -- the ciphertext bytes the failed decrypt left in `rs` (flag stays as it was)
-        (.err e, { hs := { hs with sym := sym', rs := { hs.rs with val := buf ++ hs.rs.val.drop buf.length } },
-                   ptr := r.ptr.drop len, ev := r.ev ++ ev })
-      | (.panic q, sym', _, ev) =>
-        (.panic q, { hs := { hs with sym := sym' }, ptr := r.ptr.drop len, ev := r.ev ++ ev })
-  | .psk n =>
-    match pskStep S hs n with
-    | (x, hs') => (x, { r with hs := hs' })
-  | t =>
-    match dhStep S hs t with
-    | (x, hs') => (x, { r with hs := hs' })
+      let d := hs.sym.decryptAndMixHash S (r.ptr.take len) S.pubLen
+      -- ok: the decrypted key is enabled; err: the ciphertext bytes the failed decrypt left in `rs`
+      let rs' : Toggle Bytes :=
+        match d.1 with
+        | .ok p => { val := p, on := true }
+        | .err _ => { hs.rs with val := d.2.2.1 ++ hs.rs.val.drop d.2.2.1.length }
+        | .panic _ => hs.rs
+      (d.1.toUnit, { hs := { hs with sym := d.2.1, rs := rs' }, ptr := r.ptr.drop len, ev := r.ev ++ d.2.2.2 })
+  | .psk n => ((pskStep S hs n).1, { r with hs := (pskStep S hs n).2 })
+  | t => ((dhStep S hs t).1, { r with hs := (dhStep S hs t).2 })
 
 def readToks (S : Suite) : List Tok → RS → Res Unit × RS
   | [], r => (.ok (), r)
   | t :: ts, r =>
-    match readTok S r t with
-    | (.ok (), r') => readToks S ts r'
-    | (x, r') => (x, r')
+    match (readTok S r t).1 with
+    | .ok () => readToks S ts (readTok S r t).2
+    | x => (x, (readTok S r t).2)
 
 /-- `_read_message(message, payload)` with `payload.len() = cap`. Returns the
     outcome (the payload), the session, the overwritten prefix of `payload`, events. -/
@@ -225,32 +215,33 @@ def readInner (S : Suite) (hs : HS) (msg : Bytes) (cap : Nat) :
   else if hs.pos ≥ hs.msgs.length then (.err (.state .handshakeAlreadyFinished), hs, [], [])
   else
     let last := hs.pos == hs.msgs.length - 1
-    match readToks S (hs.msgs.getD hs.pos []) { hs := hs, ptr := msg, ev := [] } with
-    | (.err e, r) => (.err e, r.hs, [], r.ev)
-    | (.panic p, r) => (.panic p, r.hs, [], r.ev)
-    | (.ok (), r) =>
-      match r.hs.sym.decryptAndMixHash S r.ptr cap with
-      | (.err e, sym', buf, ev) => (.err e, { r.hs with sym := sym' }, buf, r.ev ++ ev)
-      | (.panic p, sym', buf, ev) => (.panic p, { r.hs with sym := sym' }, buf, r.ev ++ ev)
-      | (.ok p, sym', buf, ev) =>
-        let hs1 := { r.hs with sym := sym' }
+    let r := (readToks S (hs.msgs.getD hs.pos []) { hs := hs, ptr := msg, ev := [] }).2
+    match (readToks S (hs.msgs.getD hs.pos []) { hs := hs, ptr := msg, ev := [] }).1 with
+    | .err e => (.err e, r.hs, [], r.ev)
+    | .panic p => (.panic p, r.hs, [], r.ev)
+    | .ok () =>
+      let d := r.hs.sym.decryptAndMixHash S r.ptr cap
+      let hs1 := { r.hs with sym := d.2.1 }
+      match d.1 with
+      | .err e => (.err e, hs1, d.2.2.1, r.ev ++ d.2.2.2)
+      | .panic p => (.panic p, hs1, d.2.2.1, r.ev ++ d.2.2.2)
+      | .ok p =>
         let hs2 :=
-          if last then
-            let c := hs1.sym.split S
-            { hs1 with cs1 := c.1, cs2 := c.2 }
+          if last then { hs1 with cs1 := (hs1.sym.split S).1, cs2 := (hs1.sym.split S).2 }
           else hs1
         -- `payload_len = ptr.len() - if has_key { TAGLEN } else { 0 }`
-        (.ok (p.take (r.ptr.length - (if hs2.sym.hasKey then 16 else 0))), hs2, buf, r.ev ++ ev)
+        (.ok (p.take (r.ptr.length - (if hs2.sym.hasKey then 16 else 0))), hs2, d.2.2.1, r.ev ++ d.2.2.2)
 
 /-- `read_message`: checkpoint, `_read_message`, advance or restore. -/
 def readMessage (S : Suite) (hs : HS) (msg : Bytes) (cap : Nat) :
     Res Bytes × HS × Bytes × List Event :=
   let cp := hs.sym.checkpoint
-  match readInner S hs msg cap with
-  | (.ok p, hs', buf, ev) => (.ok p, { hs' with pos := hs'.pos + 1, myTurn := true }, buf, ev)
-  | (.err e, hs', buf, ev) =>
-    (.err e, { hs' with sym := hs'.sym.restore cp, rs := hs.rs, re := hs.re }, buf, ev)
-  | (.panic p, hs', buf, ev) => (.panic p, hs', buf, ev)
+  let x := readInner S hs msg cap
+  match x.1 with
+  | .ok p => (.ok p, { x.2.1 with pos := x.2.1.pos + 1, myTurn := true }, x.2.2.1, x.2.2.2)
+  | .err e =>
+    (.err e, { x.2.1 with sym := x.2.1.sym.restore cp, rs := hs.rs, re := hs.re }, x.2.2.1, x.2.2.2)
+  | .panic p => (.panic p, x.2.1, x.2.2.1, x.2.2.2)
 
 /-- `set_psk(location, key)`. -/
 def setPsk (hs : HS) (loc : Nat) (key : Bytes) : Res Unit × HS :=
